@@ -202,11 +202,11 @@ func (c10) Shrinks(c *Case) []*Case {
 }
 
 type crashImage struct {
-	Commit int // index of the commit in progress
-	Point  string
-	Nth    int // n-th hit of Point in this process (for the real-process tier)
-	Step   int64
-	Dir    DirState
+	Commit   int // index of the commit in progress
+	Point    string
+	Nth      int // n-th hit of Point in this process (for the real-process tier)
+	Step     int64
+	Dir      DirState
 	Inferred bool // reconstructed from inotify events between two scheduling points
 }
 
